@@ -1,17 +1,17 @@
 """C03 - matrix algebra operations equal their dense definitions.
 
-Two streams: `matalg` (the clean input classes) and `edge` (input classes on which the *property* fails on the unchanged
-tree; they are executed and judged on every run, the failures carry the signatures below and are matched against the
-open entries of KNOWN_FINDINGS.json by vlib.run_pipeline; full text in FINDINGS_C03.md):
+Two streams: `matalg` (the regular input classes) and `edge` (an input class on which the *property* fails on the
+current tree; it is executed and judged on every run, the failures carry the signature below and are matched against
+the open entries of KNOWN_FINDINGS.json by vlib.run_pipeline; full text in FINDINGS_C03.md):
 
- c03-edge:F1  SparseMatrixBCSR::row_norm2 on a block row with >= 2 stored blocks (bcsr_generic_norm2 takes the square
-              root inside the loop over the blocks).  Oracle: sqrt of the dense row sum of squares.
- c03-edge:F2  SparseMatrixCSR::row_norm2sqr(row_norms, scal): csr_generic_scaled_norm2sqr uses scal[row]; the oracle
-              is the documented sum_j scal_j a_ij^2.
  c03-edge:F3  any operand is an entry-free matrix (array-less SparseMatrixCSR/BCSR(rows, cols)): the row-loop members
               and max/min(_abs)_element dereference null arrays.  Oracle: a valid entry-free matrix must not crash,
-              the results are the zero / empty results.
-The Lean model is compared on F1/F2 (it models the code as it is) and not on F3 (it returns the zero results).
+              the results are the zero / empty results.  The Lean model returns the zero results and is not compared
+              on this class.
+
+Formerly c03-edge:F1 (BCSR row_norm2 took the square root per block) and c03-edge:F2 (CSR scaled row_norm2sqr used
+scal[row]) are fixed in /repo (371e809c8, 43103d013); their input classes (several blocks per row; general scal with
+rows <, =, > cols) are part of the regular stream and their original inputs are in the corpus.
 """
 import json
 import math
@@ -291,23 +291,13 @@ def gen_case(rng, sizes):
     if k < 0.86:
         op = rng.choice(["lump", "rownorm2", "rownorm2sqr", "rownorm2sqr_s", "frob"])
         A = gen_mat(rng, rows, cols, bh, bw, blocked)
-        if op == "rownorm2" and blocked:
-            # clean class (at most one block per row); the general case runs in stream `edge` (c03-edge:F1)
-            pat = [r[:1] if rng.random() < 0.7 else [] for r in A.pat]
-            pat = ensure_entries(rng, pat, cols)
-            A = Mat(rows, cols, pat, gen_vals(rng, pat, bh, bw, True), bh, bw, True)
+        if op == "rownorm2" and blocked and cols >= 2 and rng.random() < 0.5:
+            # several blocks per row (the class of the former finding c03-edge:F1)
+            A = gen_mat(rng, rows, cols, bh, bw, True, style=rng.choice(["full", "dense", "diagplus"]))
         if op == "rownorm2sqr_s":
-            if blocked:
-                s = [rval(rng) for _ in range(cols * bw)]
-            else:
-                # clean class (both readings of scal agree); the general case runs in stream `edge` (c03-edge:F2)
-                n = rows
-                if rng.random() < 0.5:
-                    A = gen_mat(rng, n, n)
-                    s = [rval(rng)] * n
-                else:
-                    A = gen_mat(rng, n, n, style="diag")
-                    s = [rval(rng) for _ in range(n)]
+            # scal has one entry per (scalar) column; rows < cols, rows == cols and rows > cols all occur
+            # (the class of the former finding c03-edge:F2)
+            s = [rval(rng) for _ in range(cols * bw)]
             return head + "rownorm2sqr_s %s %s" % (A.tok(), fl(s))
         return head + "%s %s" % (op, A.tok())
     if k < 0.94 or blocked:
@@ -371,6 +361,12 @@ CORPUS = [
     "bcsr 64 2 2 lump 1 1 2 0 1 1 0 4 1/1 2/1 3/1 4/1",
     "bcsr 64 2 3 rownorm2sqr 1 1 2 0 1 1 0 6 1/1 2/1 3/1 4/1 5/1 6/1",
     "bcsr 64 2 2 rownorm2 1 1 2 0 1 1 0 4 3/1 4/1 0/1 1/1",
+    # the inputs of the former findings c03-edge:F1 / F2 (fixed in /repo: 371e809c8, 43103d013); documented results
+    # "V 2 5/1 0/1" (sqrt(3^2 + 4^2) over two blocks) and "V 2 5/1 0/1" (2*1 + 3*1), rows > cols and rows < cols too
+    "bcsr 64 2 2 rownorm2 1 2 2 0 2 2 0 1 8 3/1 0/1 0/1 0/1 4/1 0/1 0/1 0/1",
+    "csr 64 rownorm2sqr_s 2 2 3 0 2 2 2 0 1 2 1/1 1/1 2 2/1 3/1",
+    "csr 64 rownorm2sqr_s 3 2 4 0 2 2 3 3 0 1 1 3 1/1 2/1 3/1 2 2/1 5/1",
+    "csr 64 rownorm2sqr_s 1 3 2 0 2 2 0 2 2 1/1 2/1 3 2/1 7/1 5/1",
     "bcsr 64 2 2 diag 1 1 2 0 1 1 0 4 1/1 2/1 3/1 4/1",
     "bcsr 32 2 2 dmm 1 1 2 0 1 1 0 4 1/1 0/1 0/1 1/1 1 1 2 0 1 1 0 4 1/1 2/1 3/1 4/1 1 1 2 0 1 1 0 4 0/1 1/1 1/1 0/1 "
     "1 1 2 0 1 1 0 4 2/1 0/1 0/1 3/1 1/2 0",
@@ -747,10 +743,6 @@ def edge_class(case):
         return None
     if any(m.nb == 0 for m in c.mats.values()):
         return "F3"
-    if c.fmt == "bcsr" and c.op == "rownorm2" and any(len(r) >= 2 for r in c.mats["A"].pat):
-        return "F1"
-    if c.fmt == "csr" and c.op == "rownorm2sqr_s":
-        return "F2"
     return None
 
 
@@ -763,7 +755,7 @@ def signature(case, out, why):
 
 
 def model_filter(case):
-    # the model reproduces F1/F2 (code as it is); on entry-free operands it returns the zero results
+    # on entry-free operands the model returns the zero results (the implementation crashes: c03-edge:F3)
     return edge_class(case) != "F3"
 
 
@@ -773,19 +765,6 @@ def empty_mat(rows, cols, bh=1, bw=1, blocked=False):
 
 def gen_edge_case(rng, sizes):
     it = rng.choice([32, 64])
-    k = rng.random()
-    if k < 0.25:
-        # F1: BCSR row_norm2, any pattern
-        bh, bw = rng.choice(BLOCKS)
-        rows, cols = rdim(rng, sizes), rdim(rng, [s for s in sizes if s >= 2] or [2, 3])
-        A = gen_mat(rng, rows, cols, bh, bw, True, style=rng.choice(["full", "dense", "sparse", "diagplus"]))
-        return "bcsr %d %d %d rownorm2 %s" % (it, bh, bw, A.tok())
-    if k < 0.5:
-        # F2: CSR scaled row_norm2sqr with a general scaling vector (rows <= cols: scal[row] stays in bounds)
-        cols = rdim(rng, sizes)
-        rows = cols if rng.random() < 0.6 else rdim(rng, [s for s in sizes if s <= cols])
-        A = gen_mat(rng, rows, cols)
-        return "csr %d rownorm2sqr_s %s %s" % (it, A.tok(), fl([rval(rng) for _ in range(cols)]))
     # F3: entry-free operands
     blocked = rng.random() < 0.25
     bh, bw = rng.choice(SQUARE_BLOCKS) if blocked else (1, 1)
@@ -836,8 +815,6 @@ def gen_edge_case(rng, sizes):
 
 
 EDGE_CORPUS = [
-    "bcsr 64 2 2 rownorm2 1 2 2 0 2 2 0 1 8 3/1 0/1 0/1 0/1 4/1 0/1 0/1 0/1",
-    "csr 64 rownorm2sqr_s 2 2 3 0 2 2 2 0 1 2 1/1 1/1 2 2/1 3/1",
     "csr 64 lump 2 2 3 0 0 0 0 0",
     "csr 64 rownorm2sqr 2 2 3 0 0 0 0 0",
     "csr 64 diag 2 2 3 0 0 0 0 0",
@@ -880,7 +857,7 @@ def main(argv):
         ecases = []
     else:
         erng = random.Random(args.seed * 1000003 + 33)
-        ne = 1500 if args.tier == "quick" else 12000
+        ne = 800 if args.tier == "quick" else 6000
         ecases = EDGE_CORPUS + [gen_edge_case(erng, [1, 2, 2, 3, 3, 4, 5]) for _ in range(ne)]
     est = vlib.Stream("edge", ecases, [binary], vlib.driver_cmd(PROP), oracle=oracle, nontrivial=nontrivial,
                       describe=lambda case: describe(case) + ["edge-class:%s" % edge_class(case)], signature=signature,
@@ -896,7 +873,6 @@ def main(argv):
         "Index modelled as unbounded Nat (no 32/64-bit overflow at the sizes generated)",
         "CSR/BCSR operands have strictly increasing column indices per row (as every FEAT assembly produces)",
         "square roots: the deterministic q_sqrt of exact_q.hpp / Proto.qsqrt (float conformance T3 not run)",
-        "known findings (stream `edge`, judged on every run, FINDINGS_C03.md): c03-edge:F1 BCSR row_norm2 with >= 2 "
-        "blocks in a row, c03-edge:F2 CSR scaled row_norm2sqr, c03-edge:F3 entry-free operands"],
+        "known finding (stream `edge`, judged on every run, FINDINGS_C03.md): c03-edge:F3 entry-free operands"],
         extra_cov={"rule": stats_rule})
     return rc
